@@ -606,6 +606,13 @@ def main(tier):
         manifest = gen.generate(tier, CRATE)
         units = {u["name"]: u for u in manifest["units"]}
         groups = manifest["groups"]
+        only = os.environ.get("C07_ONLY")       # development aid (regex on group harness names); NOT the registered command
+        if only:
+            groups = [g for g in groups if re.search(only, g["harness"])]
+            keep = {u for g in groups for u in g["units"]}
+            units = {k: v for k, v in units.items() if k in keep}
+            manifest["restricted_to"] = "C07_ONLY=%s (development filter, not the registered command)" % only
+            common.log("[C07] restricted by C07_ONLY to %d group harnesses" % len(groups))
         if not groups:
             raise common.Inconclusive("no harness could be generated (spec/x64.toml does not match x64.rs at all)")
         common.log("[C07] %d units in %d group harnesses, %d methods, %d unspecified" % (
